@@ -197,3 +197,39 @@ def r6(cx):
     wm = sites(cx, mb, "Compactor::write_merged_table")
     um = [c for c in mb.calls if c.bb in mb.live and f.call_must_reach(c, {"levels::write_manifest_to_disk"})]
     dom(cx, mb, wm, um, "a compaction output is on disk before the manifest lists it")
+
+
+@rule("C07", "C07.R7", "a value-log file that is empty when the writer adopts it gets its header before any entry")
+def r7(cx):
+    """Recovery adopts the highest-numbered value-log file as the active one, and a crash between `create` and the header
+    write leaves a zero-length file.  VLogWriter::new must therefore write the header whenever the file length is 0 (not
+    only when the file did not exist): every path that reaches the Ok return without the header write has taken the
+    `length != 0` edge of a comparison of the file's length with 0."""
+    from ..core import comparisons
+    f = cx.f
+    b = f.body("VLogWriter::new")
+    enc = sites(cx, b, "VLogFileHeader::encode")
+    hw = [c for c in b.calls if c.bb in b.live and c.primary.endswith("Write>::write_all") and any(x in enc for x in origin_of_operand(b, c.args[1]).calls)]
+    cx.floor("header writes in VLogWriter::new", len(hw), 1)
+    cut = set()
+    ncmp = 0
+    for cm in comparisons(b):
+        lo, ro = origin_of_operand(b, cm.lhs), origin_of_operand(b, cm.rhs)
+        for x, y, yop in ((lo, ro, cm.rhs), (ro, lo, cm.lhs)):
+            if x.from_call("std::fs::Metadata::len") and not x.ops and const_value(yop) == 0:
+                ncmp += 1
+                for sw, e in cm.switches():
+                    for tgt, lab in e.items():
+                        if "eq" not in lab:
+                            cut.add((sw, tgt))
+    oks = [x for x, k in exits(b) if k in ("ok", "tail")]
+    r = reach_cut(b, [0], avoid={c.bb for c in hw}, cut_edges=cut)
+    bad = [x for x in oks if x in r]
+    cx.check(not bad, "VLogWriter::new: without the header write, Ok is only reachable when the file length is non-zero (%d length tests)" % ncmp,
+             "vlog-empty-file-no-header", b.where(),
+             "VLogWriter::new can adopt an existing zero-length value-log file without writing the file header: entries are appended at offset 0, tables "
+             "pointing at them are committed, and the next open rejects the file (`Invalid VLog magic number`) -- a state the store produced cannot be reopened")
+    # the header is flushed before the writer is handed out
+    fl = [c for c in b.calls if c.bb in b.live and c.primary.endswith("Write>::flush")]
+    for c in hw:
+        mpt(cx, b, [c], fl, "the header is flushed before VLogWriter::new returns", to=oks, key="vlog-header-unflushed")
